@@ -176,7 +176,7 @@ def impl_oracle(line, out):
             if int(its[1][2][0]) != mid:
                 problems.append("coap_send returned %s for mid %d" % (its[1][2][0], mid))
             rec = {"sess": s, "mid": mid, "bytes": b, "tx": [t], "cfg": cfgs[s], "T": None,
-                   "code": code, "out": None, "taint": False}
+                   "code": code, "out": None, "taint": False, "tok": e[4].lower()}
             l = live.setdefault((s, mid), [])
             l.append(rec)
             if len(l) > 1:
@@ -188,11 +188,23 @@ def impl_oracle(line, out):
             l = live.get((s, mid), [])
             if k == "K" and any(is_request(r["code"]) for r in l):
                 relaxed = True
-            if k in ("K", "P") and l:
+            if k in ("K", "P") and l:   # (N is handled by token below)
                 r = l.pop(0)       # (if several are pending it is not known which one: all are tainted)
                 r["out"] = "acked"
                 closed.append(r)
                 stats["acked"] += 1
+            if k == "N":
+                # a NON response: implicit acknowledgement of every pending message of the session
+                # with its token (RFC 7252 5.2.2); its mid is the peer's and must not matter
+                tok = e[4].lower()
+                for key in list(live):
+                    if key[0] != s:
+                        continue
+                    for r in [x for x in live[key] if x["tok"] == tok]:
+                        live[key].remove(r)
+                        r["out"] = "acked"
+                        closed.append(r)
+                        stats["acked"] += 1
             if k == "R":
                 nk = [i for i in its if i[1] == "nk" and int(i[2][2]) == 2]
                 fired = [i for i in its if not (i[1] == "nk" and int(i[2][2]) == 2)]
